@@ -34,7 +34,7 @@ func registerC14() {
 			"(length 0..5000) x PRNG write partitions, compared with the reference (each part written through Write, io.WriteString / WriteString, WriteByte if offered, io.Copy from strings and bytes readers, or a bufio.Writer), also fed through io.Copy / io.CopyN from short-reading and data-with-EOF readers, Reset, residue and Sum(nil); distinct by string digest; family long-writes: for each of the " +
 			"65536 register states s and block offsets 0/4/8/.../28 one single Write of >= 64 bytes that drives the register to s and then feeds it s itself followed by zero bytes " +
 			"(the input on which multi-byte-at-a-time and zero-skipping implementations go wrong), compared with the reference and with a byte-wise feed; family lengths: single writes of 30 KB - 2.3 MB (and a few of 4 - 33 MiB) (from zero and non-zero starting states, workers with GOMAXPROCS=4) whose length (and whose halves, thirds, " +
-			"quarters and eighths) sit at and around multiples of 32767 - the order of x modulo the CRC polynomial, where implementations that split a write and combine partial sums wrap - plus PRNG long lengths, from PRNG starting states; family shared-input: one byte string of 64 KB - 1 MB (and short ones of 64 - 300 bytes) that lies in memory mapped read-only is written to hashes in non-zero states (a store into the input faults and is reported), and eight goroutines, each with a hash of its own in a state of its own, write one shared slice at the same time, several rounds: every sum must be the reference value for prefix + shared bytes, and the shared bytes must be unchanged afterwards; family huge-write (64-bit platforms): one Write of 2^32 + 4099 bytes (thorough: also 2^32 and 2^33 + 1) of zero pages mapped read-only, on a hash in a non-zero state, compared with the reference advanced by matrix power over the zero run (thorough: also with the same bytes written in two parts); plus the same monitor (checksum, split writes, residue, Reset, every register state) built for GOOS=js GOARCH=wasm and run by node when the host has one",
+			"quarters and eighths) sit at and around multiples of 32767 - the order of x modulo the CRC polynomial, where implementations that split a write and combine partial sums wrap - plus PRNG long lengths, from PRNG starting states; family shared-input: one byte string of 64 KB - 1 MB (and short ones of 64 - 300 bytes) that lies in memory mapped read-only is written to hashes in non-zero states (a store into the input faults and is reported), and eight goroutines, each with a hash of its own in a state of its own, write one shared slice at the same time, several rounds: every sum must be the reference value for prefix + shared bytes, and the shared bytes must be unchanged afterwards; family huge-write (64-bit platforms): one Write of 2^32 + 4099 bytes (thorough: also 2^32 and 2^33 + 1) of zero pages mapped read-only, on a hash in a non-zero state, compared with the reference advanced by matrix power over the zero run (thorough: also with the same bytes written in two parts); plus fresh processes whose very first use of the package is Checksum (7 bytes - 64 KiB), a new hash fed in several ways, or both from several goroutines at once; plus the same monitor (checksum, split writes, residue, Reset, every register state) built for GOOS=js GOARCH=wasm and run by node when the host has one",
 		Assume:        []string{"the bit-serial reference CRC-16/ARC (12 lines, checked against the catalogue check value 0xBB3D) is the specification"},
 		MinNontrivial: 1 << 24,
 		Families386:   []string{"streaming", "lengths"},
@@ -52,9 +52,139 @@ func registerC14() {
 	})
 }
 
+// c14ColdModes: what a process's very first use of the package can be.
+var c14ColdModes = []string{
+	"Checksum of 300 bytes", "Checksum of 4096 bytes", "Checksum of 7 bytes", "Checksum of 64 KiB",
+	"New + one Write of 300 bytes", "New + WriteString / io.WriteString of 5000 bytes", "New + Sum16 + Reset + Write",
+	"Checksum and New + Write from two goroutines at once", "Checksum of 300 bytes from eight goroutines at once",
+}
+
+// C14Sub: "cold <mode>": a fresh process whose first use of the package is the named one; the
+// result is compared with the bit-serial reference. Prints OK or BAD <what>.
+func C14Sub(args []string) int {
+	if len(args) < 2 || args[0] != "cold" {
+		return 2
+	}
+	mode, _ := strconv.Atoi(args[1])
+	mk := func(n int, salt byte) []byte {
+		d := make([]byte, n)
+		x := uint32(2463534242) + uint32(salt)
+		for i := range d {
+			x ^= x << 13
+			x ^= x >> 17
+			x ^= x << 5
+			d[i] = byte(x >> 11)
+		}
+		return d
+	}
+	bad := func(format string, a ...interface{}) int {
+		fmt.Printf("BAD "+format+"\n", a...)
+		return 0
+	}
+	sum := func(n int, salt byte) (uint16, uint16) { d := mk(n, salt); return dyncrc16.Checksum(d), ref.CRC(d) }
+	switch mode {
+	case 0, 1, 2, 3:
+		n := []int{300, 4096, 7, 65536}[mode]
+		if got, want := sum(n, 0); got != want {
+			return bad("the first call in a process, Checksum of %d bytes: got %#04x, CRC-16/ARC gives %#04x", n, got, want)
+		}
+	case 4:
+		d := mk(300, 1)
+		h := dyncrc16.New()
+		h.Write(d)
+		if h.Sum16() != ref.CRC(d) {
+			return bad("the first hash of a process, one Write of 300 bytes: got %#04x, CRC-16/ARC gives %#04x", h.Sum16(), ref.CRC(d))
+		}
+	case 5:
+		d := mk(5000, 2)
+		h := dyncrc16.New()
+		io.WriteString(h, string(d[:2500]))
+		io.Copy(h, bytes.NewReader(d[2500:]))
+		if h.Sum16() != ref.CRC(d) {
+			return bad("the first hash of a process fed by io.WriteString and io.Copy: got %#04x, CRC-16/ARC gives %#04x", h.Sum16(), ref.CRC(d))
+		}
+	case 6:
+		d := mk(700, 3)
+		h := dyncrc16.New()
+		if h.Sum16() != 0 {
+			return bad("a new hash has sum %#04x", h.Sum16())
+		}
+		h.Write(d[:100])
+		h.Reset()
+		h.Write(d)
+		if h.Sum16() != ref.CRC(d) {
+			return bad("first hash of a process after Reset: got %#04x, CRC-16/ARC gives %#04x", h.Sum16(), ref.CRC(d))
+		}
+	case 7, 8:
+		g := []int{2, 8}[mode-7]
+		var wg sync.WaitGroup
+		var goFlag, nbad int32
+		for i := 0; i < g; i++ {
+			wg.Add(1)
+			go func(i int) {
+				defer wg.Done()
+				d := mk(300+i, byte(i))
+				want := ref.CRC(d)
+				for atomic.LoadInt32(&goFlag) == 0 {
+				}
+				var got uint16
+				if mode == 7 && i == 1 {
+					h := dyncrc16.New()
+					h.Write(d)
+					got = h.Sum16()
+				} else {
+					got = dyncrc16.Checksum(d)
+				}
+				if got != want {
+					atomic.AddInt32(&nbad, 1)
+				}
+			}(i)
+		}
+		time.Sleep(5 * time.Millisecond)
+		atomic.StoreInt32(&goFlag, 1)
+		wg.Wait()
+		if nbad > 0 {
+			return bad("%d of %d goroutines that made the process's first calls at the same moment got a wrong sum", nbad, g)
+		}
+	}
+	fmt.Println("OK")
+	return 0
+}
+
+// c14Cold runs every cold-start mode in fresh processes (several times: the concurrent ones
+// depend on timing).
+func c14Cold(c *lib.Ctx) {
+	self, _ := os.Executable()
+	reps := int(tierN(c.Tier, 3, 20))
+	for mode := range c14ColdModes {
+		for r := 0; r < reps; r++ {
+			if mode < 7 && r > 0 {
+				break
+			}
+			cmd := exec.Command(self, "c14", "cold", strconv.Itoa(mode))
+			cmd.Env = append(os.Environ(), "GOMAXPROCS=8")
+			out, err := cmd.CombinedOutput()
+			c.Eval()
+			s := strings.TrimSpace(string(out))
+			switch {
+			case s == "OK":
+				c.Count("cold_start_processes", 1)
+				c.NontrivialN(1)
+			case strings.HasPrefix(s, "BAD "):
+				c.Violation([]byte(c14ColdModes[mode]), "fresh process (%s): %s", c14ColdModes[mode], strings.TrimPrefix(s, "BAD "))
+				return
+			default:
+				c.Violation([]byte(c14ColdModes[mode]), "a fresh process whose first use of the package is '%s' died: %v: %s", c14ColdModes[mode], err, tail(out, 300))
+				return
+			}
+		}
+	}
+}
+
 // c14Wasm runs the js/wasm build of the monitor (cmd/c14wasm) under node, if ./run could build
 // it and a node binary exists: the package compiled for a platform that is neither amd64 nor 386.
 func c14Wasm(c *lib.Ctx) {
+	c14Cold(c)
 	wasm, js, node := os.Getenv("VERIF_WASM_PROG"), os.Getenv("VERIF_WASM_EXEC_JS"), os.Getenv("VERIF_NODE")
 	if wasm == "" || js == "" || node == "" {
 		c.Count("wasm_pass_not_possible_on_this_host", 1)
